@@ -26,7 +26,7 @@ Section S.
   Qed.
   Inductive steps : st -> st -> Prop := st_refl s : steps s s | st_trans s1 s2 s3 : steps s1 s2 -> step s2 s3 -> steps s1 s3.
   Theorem reads_are_complete s0 s : Inv s0 -> steps s0 s -> forall c, final s = Some c -> complete c.
-  Proof. intros H0 Hs. induction Hs; auto. apply (step_inv s2); auto. Qed.
+  Proof. intros H0 Hs. assert (HI : Inv s) by (induction Hs; [assumption | eapply step_inv; eauto]). exact HI. Qed.
   (* the non-atomic variant (write straight into final) breaks the invariant: *)
   Inductive bad_step : st -> st -> Prop :=
   | b_write p s k : bad_step s {| final := Some (firstn k (out p)); tmp := tmp s; pcs := pcs s |}.
